@@ -103,6 +103,7 @@ def td : P String := do
   let πrows ← if L == "esarsa" then tab S A else pure []
   let init ← tab S A
   let initC ← if L == "dq" then tab S A else pure []
+  let k0 ← if mode == 3 then P.nat else pure 0
   let n ← P.nat
   if A == 0 || S == 0 || !(decide (0 ≤ γ)) then P.fail
   let comp := component L
@@ -114,7 +115,9 @@ def td : P String := do
   -- hypotheses of the clauses, checked by the driver itself
   let zeroStart := init.all (fun r => r.all (· == 0)) && initC.all (fun r => r.all (· == 0))
   let boundsClause := mode == 0 && zeroStart && decide (γ < 1)
-  let q0 := ofRows init
+  -- mode 3: the first k0 steps are ordinary steps (a sweep that reaches Q* through the learner's own updates); the table
+  -- they leave is the candidate Q* for the remaining steps
+  let mut starRows := init
   let mut prev := init
   let mut prevC := initC
   let mut mdl := init
@@ -124,6 +127,7 @@ def td : P String := do
   let mut nxt : List ((Nat × Nat) × Nat) := []
   let mut hypOK := true
   let mut hypS := true
+  let mut starSteps := 0
   for k in [0:n] do
     let e ← stepIn
     let out ← tab S A
@@ -158,7 +162,9 @@ def td : P String := do
         | some (s, a, x) => v := v.failIf true s!"{comp} td_out_of_bounds step {k} tableB ({s},{a}) = {ratStr x} outside [{ratStr lo},{ratStr hi}]"
         | none => pure ()
     -- (L3) clause 2: Q* of a deterministic MDP is a fixed point
-    if mode == 1 then
+    if mode == 3 && k + 1 == k0 then starRows := out
+    if mode == 1 || (mode == 3 && k ≥ k0) then
+      let q0 := ofRows starRows
       let mx := maxA A (q0 e.s1)
       let consistent := match lookupNext nxt (e.s, e.a) with
         | some s1' => s1' == e.s1
@@ -167,10 +173,11 @@ def td : P String := do
       let hyp := consistent && e.r == q0 e.s e.a - γ * mx
         && (L != "sarsa" || q0 e.s1 e.a1 == mx)
         && (L != "esarsa" || expectedQ A π q0 e.s1 == mx)
-        && (!isDQ || initC == init.map (fun r => r.map (· * 2)))
+        && (!isDQ || initC == starRows.map (fun r => r.map (· * 2)))
       if !hyp then hypS := false
       if hypS then
-        v := v.failIf (!(eqRows out init) || (isDQ && !(eqRows outC initC)))
+        starSteps := starSteps + 1
+        v := v.failIf (!(eqRows out starRows) || (isDQ && !(eqRows outC initC)))
           s!"{comp} qstar_not_fixed step {k} ({e.s},{e.a})->{e.s1} r={ratStr e.r} table={showRows out}"
     prev := out; prevC := outC
     if (k + 1) % window == 0 then
@@ -178,7 +185,8 @@ def td : P String := do
     else
       mdl := mm; mdlC := mmC
   P.eof
-  if mode == 1 && !hypS then v := { v with tag := v.tag ++ " hyp-not-met" }
+  if (mode == 1 || mode == 3) && !hypS then v := { v with tag := v.tag ++ " hyp-not-met" }
+  if (mode == 1 || mode == 3) && hypS && starSteps > 0 then v := { v with tag := v.tag ++ " qstar" }
   if mode == 0 && !(boundsClause && hypOK) then v := { v with tag := v.tag ++ " bounds-hyp-not-met" }
   if exact == n then v := { v with tag := v.tag ++ " exact" }
   if n == 0 then v := { v with tag := v.tag ++ " trivial" }
